@@ -59,6 +59,8 @@ def main():
         dfile = os.path.join(seed, demo.get("file", "demo_test.go"))
         dst = os.path.join(wt, demo.get("copy_to", "."))
         run = demo.get("run", "")
+        # agents sometimes append prose to the command
+        run = re.split(r"\s{2,}\(|\n|\s+#\s", run)[0].strip()
 
         def rundemo():
             if not run or not os.path.exists(dfile):
